@@ -1041,7 +1041,7 @@ func runC17(c *Ctx) {
 	}
 	// the index i: DecodeRuneInString(s[i:])
 	var idx ssa.Value
-	if sl, ok := dec.Call.Args[0].(*ssa.Slice); ok && sl.X == ssa.Value(s) && sl.High == nil {
+	if sl, ok := dec.Call.Args[0].(*ssa.Slice); ok && isInputValue(sl.X, s) && sl.High == nil {
 		idx = sl.Low
 	}
 	if idx == nil {
@@ -1054,7 +1054,7 @@ func runC17(c *Ctx) {
 		switch x := v.(type) {
 		case *ssa.Slice:
 			// s[i : i+size]
-			if x.X == ssa.Value(s) && x.Low == idx {
+			if isInputValue(x.X, s) && x.Low == idx {
 				if bo, ok := x.High.(*ssa.BinOp); ok && bo.Op == token.ADD && ((bo.X == idx && bo.Y == sz) || (bo.Y == idx && bo.X == sz)) {
 					return true, "s[i:i+size]"
 				}
@@ -1081,35 +1081,113 @@ func runC17(c *Ctx) {
 		}
 		return false, "unrecognised contribution " + v.String()
 	}
-	for _, b := range tk.Blocks {
-		for _, in := range b.Instrs {
-			st, ok := in.(*ssa.Store)
-			if !ok {
-				continue
-			}
-			fa, ok := st.Addr.(*ssa.FieldAddr)
-			if !ok {
-				continue
-			}
-			switch core.FieldName(fa) {
-			case "Text":
+	// token objects whose Text is a substring of the input taken in one piece: Text = s[a:b] with Offset = a
+	sliceForm := map[ssa.Value]bool{}
+	for _, f := range core.WithAnon(tk) {
+		for _, b := range f.Blocks {
+			for _, in := range b.Instrs {
+				st, ok := in.(*ssa.Store)
+				if !ok {
+					continue
+				}
+				fa, ok := st.Addr.(*ssa.FieldAddr)
+				if !ok || core.FieldName(fa) != "Text" {
+					continue
+				}
+				sl, ok := st.Val.(*ssa.Slice)
+				if !ok || !isInputValue(sl.X, s) || sl.Low == nil || sl.Low == idx {
+					continue // s[i:...] at the scan position is a per-rune contribution (below)
+				}
+				// the Offset stored into the same object
+				var off *ssa.Store
+				nOff := 0
+				for _, r := range *fa.X.Referrers() {
+					if fa2, ok := r.(*ssa.FieldAddr); ok && core.FieldName(fa2) == "Offset" {
+						for _, u := range *fa2.Referrers() {
+							if st2, ok := u.(*ssa.Store); ok && st2.Addr == fa2 {
+								off = st2
+								nOff++
+							}
+						}
+					}
+				}
 				n++
-				v := st.Val
-				// tok.Text += x  is BinOp ADD(load Text, x)
-				if bo, isBo := v.(*ssa.BinOp); isBo && bo.Op == token.ADD {
-					v = bo.Y
+				sliceForm[fa.X] = true
+				ok = nOff == 1 && sameValueAt(sl.Low, off.Val)
+				c.R.Check(ok, "R17.1", "Tokenize: a token whose Text is a substring s[a:b] of the input has Offset a", p.Pos(st.Pos()), "Text: s[a:b], Offset: a (the same value)", "the token's Text is cut from the input at a position other than its Offset")
+				// b is a scan position (a rune boundary the loop has reached) or the end of the input
+				var isBoundary func(v ssa.Value, depth int) bool
+				isBoundary = func(v ssa.Value, depth int) bool {
+					if v == nil {
+						return true // s[a:]
+					}
+					if v == idx {
+						return true
+					}
+					if call, ok := v.(*ssa.Call); ok {
+						if bi, ok := call.Call.Value.(*ssa.Builtin); ok && bi.Name() == "len" && isInputValue(call.Call.Args[0], s) {
+							return true
+						}
+					}
+					if prm, ok := v.(*ssa.Parameter); ok && depth < 2 && prm.Parent().Parent() != nil {
+						cf := prm.Parent()
+						k := -1
+						for i, q := range cf.Params {
+							if q == prm {
+								k = i
+							}
+						}
+						sites := 0
+						for _, g := range core.WithAnon(tk) {
+							for _, call := range core.CallsIn(g) {
+								if eng.ResolveCallee(call.Common().Value) != cf {
+									continue
+								}
+								sites++
+								if k < 0 || k >= len(call.Common().Args) || !isBoundary(call.Common().Args[k], depth+1) {
+									return false
+								}
+							}
+						}
+						return sites > 0
+					}
+					return false
 				}
-				ok, why := goodContribution(v, st)
-				form := "appended"
-				if _, isBo := st.Val.(*ssa.BinOp); !isBo {
-					form = "assigned"
+				c.R.Check(isBoundary(sl.High, 0), "R17.1", "Tokenize: a substring token ends at a scan position or at the end of the input", p.Pos(st.Pos()), "the end of s[a:b] is the loop's scan position or len(s) at every call", "the end of the substring is not a position the scan has reached: the token can end inside a rune or leave characters uncovered")
+			}
+		}
+	}
+	for _, f := range core.WithAnon(tk) {
+		for _, b := range f.Blocks {
+			for _, in := range b.Instrs {
+				st, ok := in.(*ssa.Store)
+				if !ok {
+					continue
 				}
-				c.R.Check(ok, "R17.1", "Tokenize: the text "+form+" to a token's Text is the input text at the scan position", p.Pos(st.Pos()), why, why)
-			case "Offset":
-				if k, isK := core.ConstInt(st.Val); isK && k == -1 {
-					continue // sentinel of newToken
+				fa, ok := st.Addr.(*ssa.FieldAddr)
+				if !ok || sliceForm[fa.X] {
+					continue
 				}
-				c.R.Check(st.Val == idx, "R17.1", "Tokenize: a token's Offset is the scan position of its first rune", p.Pos(st.Pos()), "Offset = i", "Offset is "+core.AP(st.Val)+", not the position the rune was decoded at")
+				switch core.FieldName(fa) {
+				case "Text":
+					n++
+					v := st.Val
+					// tok.Text += x  is BinOp ADD(load Text, x)
+					if bo, isBo := v.(*ssa.BinOp); isBo && bo.Op == token.ADD {
+						v = bo.Y
+					}
+					ok, why := goodContribution(v, st)
+					form := "appended"
+					if _, isBo := st.Val.(*ssa.BinOp); !isBo {
+						form = "assigned"
+					}
+					c.R.Check(ok, "R17.1", "Tokenize: the text "+form+" to a token's Text is the input text at the scan position", p.Pos(st.Pos()), why, why)
+				case "Offset":
+					if k, isK := core.ConstInt(st.Val); isK && k == -1 {
+						continue // sentinel of newToken
+					}
+					c.R.Check(st.Val == idx, "R17.1", "Tokenize: a token's Offset is the scan position of its first rune", p.Pos(st.Pos()), "Offset = i", "Offset is "+core.AP(st.Val)+", not the position the rune was decoded at")
+				}
 			}
 		}
 	}
@@ -1161,6 +1239,115 @@ func runC17(c *Ctx) {
 			c.R.Check(ok, "R17.3", "newMatcher: the search set and the string that offsets slice are built from the same value", p.Pos(lit.alloc.Pos()), "unknown: searchset.New(u), normUnknown: u", "offsets computed on one string are applied to another")
 		}
 	}
+}
+
+// isInputValue: v denotes the parameter prm, never reassigned: the parameter itself, a load of its spill cell, or a
+// load of a closure variable bound to that cell, where the cell is stored only once (the parameter).
+func isInputValue(v ssa.Value, prm *ssa.Parameter) bool {
+	if v == ssa.Value(prm) {
+		return true
+	}
+	ld, ok := v.(*ssa.UnOp)
+	if !ok || ld.Op != token.MUL {
+		return false
+	}
+	var cell *ssa.Alloc
+	switch x := ld.X.(type) {
+	case *ssa.Alloc:
+		cell = x
+	case *ssa.FreeVar:
+		cell, _ = boundCell(x).(*ssa.Alloc)
+	}
+	if cell == nil || cell.Parent() != prm.Parent() {
+		return false
+	}
+	// stores to the cell: directly, or through any closure variable bound to it
+	n := 0
+	okSrc := true
+	for _, r := range *cell.Referrers() {
+		switch y := r.(type) {
+		case *ssa.Store:
+			if y.Addr == ssa.Value(cell) {
+				n++
+				if y.Val != ssa.Value(prm) {
+					okSrc = false
+				}
+			}
+		case *ssa.MakeClosure:
+			fn, _ := y.Fn.(*ssa.Function)
+			for i, bd := range y.Bindings {
+				if bd != ssa.Value(cell) || fn == nil || i >= len(fn.FreeVars) {
+					continue
+				}
+				for _, u := range *fn.FreeVars[i].Referrers() {
+					if st, ok := u.(*ssa.Store); ok && st.Addr == ssa.Value(fn.FreeVars[i]) {
+						okSrc = false
+					}
+					if _, ok := u.(*ssa.MakeClosure); ok {
+						okSrc = false // captured again by a nested closure: not followed
+					}
+				}
+			}
+		}
+	}
+	return n == 1 && okSrc
+}
+
+// boundCell: the value bound to a closure variable where the closure is created.
+func boundCell(fv *ssa.FreeVar) ssa.Value {
+	f := fv.Parent()
+	if f.Parent() == nil {
+		return nil
+	}
+	idx := -1
+	for i, x := range f.FreeVars {
+		if x == fv {
+			idx = i
+		}
+	}
+	var out ssa.Value
+	for _, b := range f.Parent().Blocks {
+		for _, in := range b.Instrs {
+			if mc, ok := in.(*ssa.MakeClosure); ok && mc.Fn == ssa.Value(f) && idx >= 0 && idx < len(mc.Bindings) {
+				if out != nil && out != mc.Bindings[idx] {
+					return nil
+				}
+				out = mc.Bindings[idx]
+			}
+		}
+	}
+	return out
+}
+
+// sameValueAt: a and b are the same SSA value, or two loads of the same cell in one block with no store or call
+// between them.
+func sameValueAt(a, b ssa.Value) bool {
+	if a == b {
+		return true
+	}
+	la, ok1 := a.(*ssa.UnOp)
+	lb, ok2 := b.(*ssa.UnOp)
+	if !ok1 || !ok2 || la.Op != token.MUL || lb.Op != token.MUL || la.X != lb.X || la.Block() != lb.Block() {
+		return false
+	}
+	in := false
+	for _, x := range la.Block().Instrs {
+		if x == ssa.Instruction(la) || x == ssa.Instruction(lb) {
+			if in {
+				return true
+			}
+			in = true
+			continue
+		}
+		if !in {
+			continue
+		}
+		switch x.(type) {
+		case *ssa.Store, *ssa.Call, *ssa.Go, *ssa.Defer, *ssa.MapUpdate:
+			return false
+		}
+	}
+	return false
 }
 
 // sliceFamilyThrough: like sliceFamily but also follows utf8.AppendRune(x, r) results (x -> result) and re-slicing.
